@@ -463,7 +463,7 @@ func main() {
 		[]string{"atomics are sequentially consistent (Go memory model); plain accesses are not scheduling points (checked by the separate -race pass)",
 			"'double release is harmless' is read as: two releases of one holding - sequential or concurrent - report true exactly once and change the count once; only a second release racing a RE-ACQUISITION of that id by another caller is outside the statement (no generation-less allocator can tell them apart)",
 			"thread programs and free-id sets as listed under coverage.scenarios"},
-		defs, 40*time.Second, 8*time.Minute, sequential)
+		defs, 40*time.Second, 20*time.Minute, sequential)
 }
 
 func contains(l []int, x int) bool {
